@@ -43,6 +43,11 @@ impl Board {
             soft_assert!((pieces & self.pieces(Piece::Pawn) & no_pawn_mask).is_empty());
         }
         
+        // Kings can never stand next to each other
+        let white_king = self.king(Color::White);
+        let black_king = self.king(Color::Black);
+        soft_assert!(!get_king_moves(white_king).has(black_king));
+
         let (our_checkers, _) = self.calculate_checkers_and_pins(!self.side_to_move());
         // Opponent can't be in check while it's our turn
         soft_assert!(our_checkers.is_empty());
